@@ -45,7 +45,7 @@ Proof. exact env_rows_refuted_by_partial_recycle. Qed.
 
 (* What is proved of K here: it survives dispatch, validate-pending, hold, release and every
    rejected transaction, in all states.  The other operations follow below, each with its side
-   conditions (define_step is the refuted one; amend_step, reset_for_rerun of plan
+   conditions (define_step is the refuted one; reset_for_rerun of plan
    steps and update_hashes on BUILT / OUTDATED files are not covered).  declare_static is covered below. *)
 Theorem C01_K_preserved_partial :
   forall o s, K_b s = true ->
@@ -131,7 +131,7 @@ Proof. exact K_op_exec_end_success. Qed.
    ATTACHED files only: a detached file may keep the output edge of a former producer, and K does
    not look at detached outputs.  Only the boolean is imported here, not C09's proofs. *)
 From SV Require Import model.GraphInv proofs.NoStaleInv proofs.NoStaleOps proofs.NoStaleDelete
-     proofs.NoStaleDeclare.
+     proofs.NoStaleDeclare proofs.NoStaleAmend proofs.NoStaleAll.
 
 Theorem C01_K_side_conditions_from_C09_invariant :
   forall s, inv_core_b s = true -> unique_labels s /\ single_producer s.
@@ -162,6 +162,17 @@ Theorem C01_K_preserved_by_OpDeclareStatic :
                     K_b (apply_op s (OpDeclareStatic c paths)) = true.
 Proof. exact K_op_declare_static. Qed.
 
+(* Workflow.amend_step, requested by a step that is not SUCCEEDED (the protocol: amend comes from a
+   job in flight; C09's protocol_ok has the same clause): supply_files (unknown inputs become
+   detached UNDECLARED nodes, input edges file -> step), amended variables, and for every new
+   output declare_file(PLANNED / VOLATILE) + an output edge.  File.initialize_row keeps a former
+   BUILT state and then outdates the file with propagation; the added edges start or end at the
+   amending step. *)
+Theorem C01_K_preserved_by_OpAmendStep :
+  forall l inp env out vol s, inv_core_b s = true -> sstate_of l s <> Some SSucceeded -> K_b s = true ->
+    K_b (apply_op s (OpAmendStep l inp env out vol)) = true.
+Proof. exact K_op_amend_step. Qed.
+
 (* Scheduler._reset_step_to_pending (a skip that turned out impossible) of a leaf step:
    reset_for_rerun, the stored hash is dropped, the step goes back to PENDING *)
 Theorem C01_K_preserved_by_OpResetToPending_leaf :
@@ -181,6 +192,26 @@ Theorem C01_K_preserved_by_OpExecEnd_failure_leaf :
     file_products_in l is_built s = [] -> no_created_steps l s -> K_b s = true ->
     K_b (apply_op s (OpExecEnd l [] CFailed hs false wd)) = true.
 Proof. exact K_op_exec_end_failure_leaf_inv. Qed.
+
+(* All of the above in one statement.  [K_side o s] (proofs/NoStaleAll.v) is the side condition of
+   transaction [o] in state [s]: True for declare_static, dispatch, validate_pending,
+   mark_step_pending, delete_detached, hold, release, reset_interrupted; "every named file is
+   UNCONFIRMED / MISSING / CONFIRMED" for update_hashes; "the step is not SUCCEEDED" for
+   amend_step; the leaf-step conditions for reset_for_rerun / reset_to_pending; the protocol
+   conditions of the success or of the failure branch (leaf step) for exec_end; False for
+   define_step (refuted above). *)
+Theorem C01_K_preserved_by_every_transaction_but_define_step :
+  forall o s, inv_core_b s = true -> K_side o s -> K_b s = true -> K_b (apply_op s o) = true.
+Proof. exact K_preserved_all. Qed.
+
+(* Along every history from the empty workflow whose transactions meet their side conditions, K
+   holds at the end.  The premise on inv_core_b is what C09 proves for every history
+   (C09_reachable_inv_core); its proof is not imported into this closure. *)
+Theorem C01_K_along_histories_partial :
+  forall cap ops,
+    (forall pre, inv_core_b (run_ops pre (init_st cap)) = true) ->
+    sides_ok (init_st cap) ops -> K_b (run_ops ops (init_st cap)) = true.
+Proof. exact K_history. Qed.
 
 (* The hypotheses are satisfiable: the state after build 1 of the D4 history satisfies the
    invariant and K; and in the middle of that build (cat is RUNNING after reset_for_rerun) the
